@@ -116,6 +116,21 @@ CHECKS["C08"] = dict(
           "(fix commit): their equivalence is exactly what the correspondence tests."),
     technique="Lean 4 proof over an interpreter model + call-history differential correspondence")
 
+CHECKS["C05"] = dict(
+    category="proof",
+    text=("Lean 4 storage-level model (BlocV/Model/Store.lean: variable / constant / temporary cells with the LVALUE flag, "
+          "Pool::keep, LVAL1/LVAL2, which operand each operator cell returns or overwrites, storeVariable's swap/clone) and the "
+          "frame theorem (BlocV.Proofs.C05.eval_frame): under the flag invariant, evaluating ANY expression over constants, "
+          "variables and the unary/binary operators leaves every variable slot and constant cell unchanged and re-establishes "
+          "the invariant; assignment preserves it (store_preserves). Tied to /repo by evaluating every operator / built-in "
+          "node x operand class x operand source three times through Expression::value with deep dumps (value, type, LVALUE "
+          "flag) of every variable slot before and after, and by random alias programs against the value-semantics interpreter."),
+    design_ref="DESIGN.md §6 C05",
+    note=("Trusted: Lean kernel; the per-operator placement table (which operand is returned/overwritten) is transcribed by hand "
+          "and its observable consequences are tested; container elements and function-call results are covered at program level "
+          "only (C09 for containers); C++ move semantics assumed to be value moves."),
+    technique="Lean 4 proof (frame theorem over a storage-level model) + dump-based differential correspondence")
+
 NOT_YET = {}
 
 ALL = ["C%02d" % i for i in range(1, 20)]
